@@ -25,6 +25,17 @@ for p in sorted(glob.glob('/verif/evidence/*.json')):
     except Exception as e:
         ok = False
         print('INVALID', p, getattr(e, 'message', e))
+cat = {c['property_id']: c['level_claimed']['category'] for c in man['checks']}
+for pid, c in sorted(cat.items()):
+    try:
+        ev = json.load(open('/verif/evidence/%s.json' % pid))
+    except OSError:
+        ok = False
+        print('no evidence file for', pid)
+        continue
+    if ev.get('level') != c or ev.get('property_id', pid) != pid:
+        ok = False
+        print('LEVEL MISMATCH', pid, 'manifest', c, 'evidence', ev.get('level'))
 props = [json.loads(l)['id'] for l in open('/verif/properties.jsonl')]
 claimed = {c['property_id'] for c in man['checks']}
 na = {c['property_id'] for c in man.get('not_applicable', [])}
